@@ -174,7 +174,7 @@ def check(ctx):
         if cl[0] == "closure":
             cb_ = Body(fx.fn(cl[1])); cd = D.Dag(cb_)
             cs = [(bb, cc) for (bb, cc) in cb_.calls if (cc.get("resolved") or cc.get("f")) == R.SM + "::cancel_stream"]
-            ok = len(cs) == 1 and util.on_every_return_path(cb_, cs[0][0]) and "stream_id" in show(cd.expr(cs[0][1]["args"][1]))
+            ok = len(cs) == 1 and util.on_every_return_path(cb_, cs[0][0]) and "stream_id" in show(cd.expr(cs[0][1]["args"][1])) and util.plain_forward(cd.expr(cs[0][1]["args"][1]))
         ctx.ob("R09.5", f"{k}|old-stream-cancels-itself-when-exhausted", ok, body.loc(b), "the report-empty callback of the fixed (old events) subscriber cancels exactly this stream, so the old stream ends after the last old event")
     ctx.ob("R09.5", f"{k}|fixed-arm-found", found, f"{body.f['file']}:{body.f['line']}", "the Fixed subscriber arm of consume was identified", nontrivial=False)
     # ------------------------------------------------------------------ R09.6 ids <-> subscribers
